@@ -35,6 +35,6 @@ Definition run_typed (inp : bool * list qop) : sx :=
   if nilrecv then
     SL (map (fun o => SL [match o with QEmpty => qout_sx (QBool true) | _ => SL [] end; SL []]) ops)
   else
-  SL (map (fun rq => SL [qout_sx (fst rq); SL (map entry_sx (snd rq))]) (q_run [] ops)).
+  SL (map (fun rq => SL [qout_sx (fst rq); SL (map entry_sx (snd rq))]) (q_run q_init ops)).
 
 Definition run_C17 : sx -> sx := with_input dec_input run_typed.
